@@ -224,6 +224,7 @@ class Evaluator:
         self.cache = {}
         self.check_block_shapes = check_block_shapes
         self.tasks_run = 0
+        self.depth = 0
 
     # ---- helpers ----
     def target(self, name):
@@ -283,6 +284,8 @@ class Evaluator:
         pipeline = self.nodes[opname]["pipeline"]
         spec = pipeline.config
         self.tasks_run += 1
+        if self.tasks_run > 5000:
+            raise sx.Violated("plan-evaluation-does-not-terminate", "more than 5000 task evaluations for one element: the plan is cyclic or self-referential")
         fa = spec.back_key_function(ChunkKey(array_name, coords))
         args = map_nested(lambda k: self.read(spec, k), fa)
         res = spec.function(*args.args)
@@ -328,6 +331,15 @@ class Evaluator:
         gidx = tuple(gidx)
         if self.is_leaf(array_name):
             return ("elem", array_name, gidx)
+        self.depth += 1
+        try:
+            if self.depth > 40:
+                raise sx.Violated("plan-is-cyclic", f"array {array_name} is (transitively) computed from itself")
+            return self._elem_of(array_name, gidx, fieldname)
+        finally:
+            self.depth -= 1
+
+    def _elem_of(self, array_name, gidx, fieldname=None):
         r, region, local = self.block_of(array_name, gidx)
         if r is None:
             return ("unwritten",)
